@@ -834,6 +834,134 @@ Section Proofs.
     intros Ha Hin. destruct (request_complete k v "" a own certs Ha Hin) as [args [Hs [G2 H]]].
     exists args. split; [exact Hs|]. split; [exact G2|]. rewrite G2 in H. exact H.
   Qed.
+
+  (* ---------------------------------------------------------------- long-lived receivers (strengthening round 5):
+     receptions, metadata reloads (also failing ones), look-ups and sending in any order, on any number of
+     receivers.  What a reception answers is what a receiver FRESHLY set up with the metadata of now answers:
+     Spec.published_now (the last reload that succeeded, found by looking back from the reception) - nothing that
+     happened before that reload, and nothing that happened since, plays a part. *)
+  Notation rlife := (run_life cert_of verify).
+  Notation lstp := (life_step cert_of verify).
+  Notation loads := (loads_redirect_c cert_of verify).
+
+  Fixpoint state_after (st : list (receiver key cert)) (steps : list (lstep cert)) : list (receiver key cert) :=
+    match steps with
+    | [] => st
+    | s :: t => state_after (fst (lstp st s)) t
+    end.
+
+  Lemma run_life_nth before : forall st s after,
+    nth_error (rlife st (before ++ s :: after)) (length before) = Some (snd (lstp (state_after st before) s)).
+  Proof.
+    induction before as [|b before IH]; intros st s after; [reflexivity|].
+    cbn [app run_life length nth_error state_after]. apply IH.
+  Qed.
+
+  Lemma run_life_length : forall steps st, length (rlife st steps) = length steps.
+  Proof. induction steps as [|s t IH]; intros st; [reflexivity|]. cbn [run_life length]. rewrite IH. reflexivity. Qed.
+
+  Lemma upd_rcv_nth (pub : list (list (certarg cert))) : forall r (st : list (receiver key cert)) r',
+    nth_error (upd_rcv r pub st) r'
+    = if Nat.eqb r r' then option_map (fun rc : receiver key cert => mkrcv (r_own rc) (r_must rc) pub) (nth_error st r')
+      else nth_error st r'.
+  Proof.
+    induction r as [|r IH]; intros [|rc st] [|r']; cbn [upd_rcv nth_error Nat.eqb option_map]; try reflexivity.
+    - destruct (Nat.eqb r r'); reflexivity.
+    - apply IH.
+  Qed.
+
+  Lemma last_good_reload_app (r : nat) (a b : list (lstep cert)) :
+    last_good_reload r (a ++ b) = match last_good_reload r a with Some p => Some p | None => last_good_reload r b end.
+  Proof.
+    induction a as [|s a IH]; [reflexivity|]. cbn [app last_good_reload].
+    destruct s as [r' [|] pub| |]; try exact IH. destruct (Nat.eqb r' r); [reflexivity|exact IH].
+  Qed.
+
+  (* the state after any steps: own key and must as configured, the metadata of the last reload that succeeded *)
+  Lemma state_after_nth before : forall st r,
+    nth_error (state_after st before) r
+    = match nth_error st r with
+      | None => None
+      | Some rc => Some (mkrcv (r_own rc) (r_must rc)
+                           (match last_good_reload r (rev before) with Some p => p | None => r_pub rc end))
+      end.
+  Proof.
+    induction before as [|s before IH]; intros st r.
+    - cbn. destruct (nth_error st r) as [[o m p]|]; reflexivity.
+    - cbn [state_after rev]. rewrite IH, last_good_reload_app.
+      destruct s as [r' good pub|r'|r' iss d rs sa sg]; cbn [life_step fst last_good_reload].
+      + destruct good.
+        * rewrite upd_rcv_nth. destruct (Nat.eqb r' r).
+          -- destruct (nth_error st r) as [rc|]; cbn [option_map]; [|reflexivity].
+             cbn [r_own r_must r_pub]. destruct (last_good_reload r (rev before)); reflexivity.
+          -- destruct (nth_error st r) as [rc|]; [|reflexivity].
+             destruct (last_good_reload r (rev before)); reflexivity.
+        * destruct (nth_error st r) as [rc|]; [|reflexivity].
+          destruct (last_good_reload r (rev before)); reflexivity.
+      + destruct (nth_error st r) as [rc|]; [|reflexivity]. destruct (last_good_reload r (rev before)); reflexivity.
+      + destruct (nth_error st r) as [rc|]; [|reflexivity]. destruct (last_good_reload r (rev before)); reflexivity.
+  Qed.
+
+  (* a reception in the middle of any life = the same reception at a fresh receiver with the metadata of now *)
+  Lemma life_fresh st0 before after r iss origdoc rs sigalg signature rc pub :
+    nth_error st0 r = Some rc -> published_now st0 before r = Some pub ->
+    nth_error (rlife st0 (before ++ LRecv r iss origdoc rs sigalg signature :: after)) (length before)
+    = Some (RRecv (loads (r_own rc) (nth iss pub []) (r_must rc) origdoc rs sigalg signature)).
+  Proof.
+    intros Hr Hp. rewrite run_life_nth. cbn [life_step snd]. rewrite state_after_nth, Hr.
+    cbn [r_own r_must r_pub]. unfold published_now in Hp. rewrite Hr in Hp.
+    destruct (last_good_reload r (rev before)); cbn [option_map] in Hp; injection Hp as <-; reflexivity.
+  Qed.
+
+  (* ... hence, with ideal signatures: a request is accepted only when the owner of a certificate that the metadata
+     holds NOW for its issuer signed exactly what was handed over (a withdrawn certificate verifies nothing) ... *)
+  Lemma life_sound st0 before after r iss origdoc rs sigalg signature rc pub :
+    nth_error st0 r = Some rc -> published_now st0 before r = Some pub -> r_must rc = true ->
+    (forall ca, In ca (nth iss pub []) -> ca <> CAbsent) ->
+    nth_error (rlife st0 (before ++ LRecv r iss origdoc rs sigalg signature :: after)) (length before)
+      = Some (RRecv true) ->
+    exists a sp d k, sigalg = Some a /\ signature = Some sp /\ In (CCert (cert_of k)) (nth iss pub [])
+      /\ digest_of a = Some d /\ sp = encode (sign k d (octets_of K_REQ origdoc rs a)).
+  Proof.
+    intros Hr Hp Hm Hna H. rewrite (life_fresh _ _ _ _ _ _ _ _ _ _ _ Hr Hp), Hm in H.
+    injection H as H. exact (request_sound_c _ _ _ _ _ _ Hna H).
+  Qed.
+
+  (* ... and the URL an entity signed, handed over as produced, is accepted at every point of every life at which
+     the metadata holds that entity's certificate for the issuer (the certificate published by the last reload) *)
+  Lemma life_complete st0 before after r iss rc pub k v rl a :
+    nth_error st0 r = Some rc -> published_now st0 before r = Some pub -> r_must rc = true ->
+    In a spec_allowed -> In (CCert (cert_of k)) (nth iss pub []) ->
+    exists args, hrm k K_REQ v rl (Some a) true = SArgs args
+      /\ nth_error (rlife st0 (before ++ LRecv r iss v (get args K_RS) (get args K_ALG) (get args K_SIG) :: after))
+                   (length before) = Some (RRecv true).
+  Proof.
+    intros Hr Hp Hm Ha Hin.
+    destruct (request_complete k v rl a (r_own rc) _ Ha Hin) as [args [Hs [_ H]]].
+    exists args. split; [exact Hs|]. rewrite (life_fresh _ _ _ _ _ _ _ _ _ _ _ Hr Hp), Hm, H. reflexivity.
+  Qed.
+
+  (* what the seeded memo breaks: a certificate that the last reload no longer publishes accepts nothing, even if
+     it was published (and used) before.  Stated on the smallest life: reception, roll-over, reception *)
+  Lemma withdrawn_refused own pub0 pub1 iss k d0 rs0 sa0 sg0 origdoc rs sigalg signature :
+    (forall ca, In ca (nth iss pub1 []) -> ca <> CAbsent) ->
+    ~ In (CCert (cert_of k)) (nth iss pub1 []) ->
+    (forall a d, sigalg = Some a -> digest_of a = Some d ->
+       signature = Some (encode (sign k d (octets_of K_REQ origdoc rs a)))) ->
+    nth_error (rlife [mkrcv own true pub0]
+                 [LRecv 0 iss d0 rs0 sa0 sg0; LReload 0 true pub1; LRecv 0 iss origdoc rs sigalg signature]) 2
+    = Some (RRecv false).
+  Proof.
+    intros Hna Hnot Hsig.
+    pose proof (life_fresh [mkrcv own true pub0] [LRecv 0 iss d0 rs0 sa0 sg0; LReload 0 true pub1] []
+                  0 iss origdoc rs sigalg signature (mkrcv own true pub0) pub1 eq_refl eq_refl) as E.
+    cbn [app length] in E. rewrite E. cbn [r_own r_must].
+    destruct (loads own (nth iss pub1 []) true origdoc rs sigalg signature) eqn:El; [|reflexivity].
+    exfalso. destruct (request_sound_c _ _ _ _ _ _ Hna El) as [a [sp [d [k' [Ea [Esp [Hin [Hd Hs]]]]]]]].
+    specialize (Hsig a d Ea Hd). rewrite Esp in Hsig. injection Hsig as Hsig. rewrite Hs in Hsig.
+    apply encode_injective in Hsig. destruct (sign_inj _ _ _ Hideal _ _ _ _ _ _ Hsig) as [-> _].
+    exact (Hnot Hin).
+  Qed.
 End Proofs.
 
 (* ------------------------------------------------------------------ spec_b is the stated spec *)
